@@ -16,7 +16,11 @@ def gen_rec(rng, code, profile="mixed", max_parts=4, max_pts=5, allow_degenerate
     if code == 0:
         return {"code": 0}
     if code in refesri.POINT:
-        rec = {"code": code, "x": g(), "y": g()}
+        # every bit pattern is a coordinate: now and then X and/or Y are NaN
+        nan_xy = profile == "mixed" and rng.random() < 0.12
+        rec = {"code": code, "x": g(nan_xy), "y": g(nan_xy and rng.random() < 0.8)}
+        if nan_xy and rng.random() < 0.5:
+            rec["x"], rec["y"] = shapes.NANS[0], shapes.NANS[-1]
         if code == 11:
             rec["z"] = g(True)
             rec["m"] = g(True) if rng.random() < 0.6 else None
